@@ -74,14 +74,45 @@ Theorem C12_syntax : forall key rest v,
 Proof. intros key rest v. split; [apply level_says_bare|split; [apply level_says_minus_one|apply entry_says_value]]. Qed.
 Print Assumptions C12_syntax.
 
-(** The checker that ./check runs on every observation made on the C code accepts every observation the model
-    stands for: whenever the C agrees with the model the C satisfies the documented function, and a C output the
-    checker calls bad is a genuine deviation from it. *)
-Theorem C12_checker_sound : forall outcomes um uf dm df gm gf key obs,
-  observe (rcpt_case outcomes um uf dm df gm gf key) = Some obs ->
-  spec_ok_C12 outcomes um uf dm df gm gf key obs <> VBad.
+(** The checker that ./check runs on every observation made on the C code ([spec_ok_C12]: documented combination
+    of the filter results, documented three-level value of the probed setting, man page's global marks, and the
+    interface discipline "denied with message" = the filter has sent one 5xx itself), stated for every case of the
+    filters engine: directory tree (raw file bytes, loaded by the model of the control-file loader), stand-in or
+    real filter per position of rcpt_cbs[], session.
+
+    Full statement: the checker accepts every observation the model stands for. *)
+Definition C12_full : Prop := forall outcomes um uf dm df gm gf key sess obs,
+  observe (rcpt_case outcomes um uf dm df gm gf key sess) = Some obs ->
+  spec_ok_C12 outcomes um uf dm df gm gf key sess obs <> VBad.
+
+(** Finding F-C12-3: refuted by the real cb_spf.  With SPF status "temporary error", an spfpolicy in force and
+    fail_hard_on_temp not set, cb_spf sends "451 4.4.3 ..." itself and returns FILTER_DENIED_WITH_MESSAGE: the
+    evaluation ends, the permanent denial of a later filter (here: dnsbl) cannot win, and the "denied" state is
+    answered with a 4xx.  (tests/filter_spf.c pins this behaviour.) *)
+Theorem C12_refuted : ~ C12_full.
+Proof. exact checker_refuted. Qed.
+Print Assumptions C12_refuted.
+
+Theorem C12_spf_temp_class_witness :
+  in_spf_temp_class w_outcomes 1 [] 1 [] 2 w_global w_session = true /\
+  forall s uc dc gc,
+    s_spf s = SPF_TEMPERROR ->
+    (0 < setting_value (getsettingglobal uc dc gc KEY_SPFPOLICY))%Z ->
+    (setting_value (getsetting uc dc gc KEY_SPF_FAIL_HARD) <= 0)%Z ->
+    cb_spf s uc dc gc = (FDeniedMsg, Some REPLY_SPF_TEMP) /\ nth 0 REPLY_SPF_TEMP 0%N = 52%N.
+Proof. split; [exact witness_in_class|exact cb_spf_temp]. Qed.
+Print Assumptions C12_spf_temp_class_witness.
+
+(** Outside that class (decidable predicate [in_spf_temp_class] on the case: the real cb_spf is in the table, SPF
+    status temporary error, spfpolicy > 0, fail_hard_on_temp <= 0) the full statement holds: whenever the C agrees
+    with the model the C satisfies the documented function, and a C output the checker calls bad is a genuine
+    deviation from it. *)
+Theorem C12_checker_sound_partial : forall outcomes um uf dm df gm gf key sess obs,
+  in_spf_temp_class outcomes um uf dm df gm gf sess = false ->
+  observe (rcpt_case outcomes um uf dm df gm gf key sess) = Some obs ->
+  spec_ok_C12 outcomes um uf dm df gm gf key sess obs <> VBad.
 Proof. exact checker_accepts_model. Qed.
-Print Assumptions C12_checker_sound.
+Print Assumptions C12_checker_sound_partial.
 
 (** Finding F-C12-1, the code as shipped: with userconf_free(&ds) before the two getsetting(&ds, ...) calls the
     settings are read from an emptied struct, so a user who sets fail_hard_on_temp still gets 450 4.7.0 for a
